@@ -118,7 +118,7 @@ class Operator:
             )
 
             for universal_effect in self.lifted_universal_effects:
-                if pddl_object.type.name != universal_effect.quantified_type.name:
+                if not pddl_object.type.is_sub_type(universal_effect.quantified_type):
                     continue
 
                 self.logger.debug(
